@@ -170,15 +170,27 @@ func HIsolation(di int) {
 	seed(P)
 	if dirs[di] == "." {
 		hx.Must(P.Chdir("/w"))
+	} else {
+		hx.Must(P.Chdir("/w/a"))
 	}
+	sym.Label("memfs|Sub(" + dirs[di] + ")|isolation")
+	// creating a view leaves the settings of the file system it is created from alone
+	pu0, pm0 := P.User().Uid(), P.UMask()
+	pwd0, _ := P.Getwd()
 	V, err := P.Sub(dirs[di])
 	hx.Must(err)
 	S, err := P.Sub("/w")
 	hx.Must(err)
-	sym.Label("memfs|Sub(" + dirs[di] + ")|isolation")
 	sym.Reach("isolation")
 	pu, pm := P.User().Uid(), P.UMask()
 	pwd, _ := P.Getwd()
+	sym.Assert(pu == pu0 && pm == pm0 && pwd == pwd0, "C11|isolation|parent-changed-by-creating-a-view")
+	// ... nor those of a view a nested view is created from
+	hx.Must(S.Chdir("/a"))
+	swd0, _ := S.Getwd()
+	_, nerr := S.Sub("/a")
+	swd1, _ := S.Getwd()
+	sym.Assert(nerr == nil && swd1 == swd0, "C11|isolation|view-changed-by-creating-a-nested-view")
 	su, sm := S.User().Uid(), S.UMask()
 	swd, _ := S.Getwd()
 	mask := sym.Uint32("umask") & 0o777
